@@ -491,3 +491,88 @@ Section Generic.
       * apply rel_refl.
   Qed.
 End Generic.
+
+
+(* ---------------------------------------------------------------- instance 1: ON kept whole, equality *)
+
+Definition wf_any : fromc -> fromc -> expr -> nat -> nat -> bool := fun _ _ _ _ _ => true.
+
+Lemma wf_trivial :
+  (forall e, wf_expr wf_any e = true) /\ (forall q, wf_query wf_any q = true) /\ (forall f, wf_from wf_any f = true).
+Proof.
+  apply sql_ind3.
+  - reflexivity.
+  - reflexivity.
+  - intros op a b Ha Hb. change (wf_expr wf_any a && wf_expr wf_any b = true). rewrite Ha, Hb. reflexivity.
+  - intros neg a b Ha Hb. change (wf_expr wf_any a && wf_expr wf_any b = true). rewrite Ha, Hb. reflexivity.
+  - intros a b Ha Hb. change (wf_expr wf_any a && wf_expr wf_any b = true). rewrite Ha, Hb. reflexivity.
+  - intros a b Ha Hb. change (wf_expr wf_any a && wf_expr wf_any b = true). rewrite Ha, Hb. reflexivity.
+  - intros a Ha. exact Ha.
+  - intros neg a Ha. exact Ha.
+  - intros op w a b Ha Hb. change (wf_expr wf_any a && wf_expr wf_any b = true). rewrite Ha, Hb. reflexivity.
+  - intros w a Ha. exact Ha.
+  - intros bs els Hbs Hels.
+    change (forallb (fun ct => match ct with (c, t) => wf_expr wf_any c && wf_expr wf_any t end) bs && wf_expr wf_any els = true).
+    rewrite Hels, andb_true_r. apply forallb_forall. intros [c t] Hin. rewrite Forall_forall in Hbs.
+    destruct (Hbs _ Hin) as [Hc Ht]. cbn [fst snd] in *. rewrite Hc, Ht. reflexivity.
+  - intros neg a es Ha Hes. change (wf_expr wf_any a && forallb (wf_expr wf_any) es = true). rewrite Ha. cbn [andb].
+    apply forallb_forall. rewrite Forall_forall in Hes. exact Hes.
+  - intros neg q Hq. exact Hq.
+  - intros neg a q Ha Hq. change (wf_expr wf_any a && wf_query wf_any q = true). rewrite Ha, Hq. reflexivity.
+  - intros q Hq. exact Hq.
+  - reflexivity.
+  - intros rows H. change (forallb (forallb (wf_expr wf_any)) rows = true).
+    apply forallb_forall. intros r Hr. apply forallb_forall. rewrite Forall_forall in H.
+    specialize (H r Hr). rewrite Forall_forall in H. exact H.
+  - intros f wh grp hav sel dis H H0 H1 H2 H3.
+    change (match f with Some fc => wf_from wf_any fc | None => true end
+            && match wh with Some e => wf_expr wf_any e | None => true end
+            && match grp with
+               | Some (keys, aggs) => forallb (wf_expr wf_any) keys &&
+                      forallb (fun a => match a with (_, _, arg) => wf_expr wf_any arg end) aggs
+               | None => true end
+            && match hav with Some e => wf_expr wf_any e | None => true end
+            && forallb (wf_expr wf_any) sel = true).
+    assert (E1 : match f with Some fc => wf_from wf_any fc | None => true end = true)
+      by (destruct f; [exact H|reflexivity]).
+    assert (E2 : match wh with Some e => wf_expr wf_any e | None => true end = true)
+      by (destruct wh; [exact H0|reflexivity]).
+    assert (E4 : match hav with Some e => wf_expr wf_any e | None => true end = true)
+      by (destruct hav; [exact H2|reflexivity]).
+    assert (E3 : match grp with
+                 | Some (keys, aggs) => forallb (wf_expr wf_any) keys &&
+                      forallb (fun a => match a with (_, _, arg) => wf_expr wf_any arg end) aggs
+                 | None => true end = true).
+    { destruct grp as [[keys aggs]|]; [|reflexivity]. cbn [grpP fst snd] in H1. destruct H1 as [Hk Ha].
+      rewrite Forall_forall in Hk, Ha. apply andb_true_iff. split; apply forallb_forall.
+      - exact Hk.
+      - intros [[fn dis0] arg] Hin. exact (Ha _ Hin). }
+    rewrite E1, E2, E3, E4. cbn [andb]. apply forallb_forall. rewrite Forall_forall in H3. exact H3.
+  - intros all a b Ha Hb. change (wf_query wf_any a && wf_query wf_any b = true). rewrite Ha, Hb. reflexivity.
+  - intros q keys lim off Hq. exact Hq.
+  - intros q Hq. exact Hq.
+  - intros k l r on la ra Hl Hr Hon.
+    change (wf_from wf_any l && wf_from wf_any r && match on with Some e => wf_expr wf_any e && true | None => true end = true).
+    rewrite Hl, Hr. destruct on as [e|]; [|reflexivity]. cbn [optP] in Hon. rewrite Hon. reflexivity.
+  - intros k l r on ra Hl Hr Hon.
+    change (wf_from wf_any l && wf_query wf_any r && match on with Some e => wf_expr wf_any e | None => true end = true).
+    rewrite Hl, Hr. destruct on as [e|]; [|reflexivity]. cbn [optP] in Hon. rewrite Hon. reflexivity.
+Qed.
+
+Theorem plan0_correct : forall d en q, eval_lplan d en (plan0_of q) = eval_query d en q.
+Proof.
+  intros d en q.
+  pose proof (plan_gen_correct (fun A x y => x = y) (fun A x => eq_refl) (@eq_bind)
+                whole_join wf_any (fun _ => True)) as G.
+  cbv beta in G.
+  assert (Hj : forall d en k e la ra fl fr pl pr, True -> true = true ->
+     eval_lplan d en pl = eval_from d en fl -> eval_lplan d en pr = eval_from d en fr ->
+     (forall x, eval_pexpr d (x :: en) (plan_expr whole_join e) = eval_expr d (x :: en) e) ->
+     eval_lplan d en (whole_join k (plan_expr whole_join e) la ra pl pr) = eval_from d en (FJoin k fl fr (Some e) la ra)).
+  { clear. intros d en k e la ra fl fr pl pr _ _ Hl Hr He. unfold whole_join. cbn [eval_lplan eval_from].
+    rewrite Hl, Hr. apply eq_bind; [reflexivity|]. intros L _ _. apply eq_bind; [reflexivity|]. intros R _ _.
+    unfold rjoin.
+    apply (rel_join_rows (fun A x y => x = y) (fun A x => eq_refl) (@eq_bind)).
+    intros x. cbn [opt_pred]. rewrite He. reflexivity. }
+  destruct (G Hj) as [_ [GQ _]]. apply GQ; [apply wf_trivial|exact I].
+Qed.
